@@ -106,8 +106,29 @@ def check_axioms(n):
     return bad
 
 
+def check_get_path(n=400):
+    """_get_path: the path of a file:// id is percent-DECODED (like the locations that are remapped against it), the fragment is cut"""
+    from pathlib import Path
+
+    from streamflow.cwl.translator import _get_path
+
+    for _ in range(n):
+        name = rng.choice(["plain", "my data", "dépôt", "100%", "a%20b", "q?x", "semi;colon", "日本"])
+        p = "/" + "/".join(rng.choice(["w", name, "sub dir"]) for _ in range(rng.randint(1, 3))) + "/" + name
+        uri = Path(p).as_uri()
+        frag = rng.choice(["", "#main", "#step/in"])
+        got = _get_path(uri + frag)
+        if got != p:
+            return {"unit": "_get_path", "id": uri + frag, "got": got, "expected": p}
+        if _get_path(p + frag) != p:
+            return {"unit": "_get_path", "id": p + frag, "got": _get_path(p + frag), "expected": p}
+    return None
+
+
 def replay(path):
     d = load_replay(path)
+    if d.get("unit") == "_get_path":
+        finish_replay(path, check_get_path(), "(400 document ids)")
     if (d.get("info") or {}).get("known") == "KF-C32-percent-names":
         # the recorded finding: show its witness on the real code
         for p in ["/old/a%20b", "/old/%41", "/old/x/p%2Fq"]:
@@ -125,7 +146,7 @@ def crosscheck(n):
     if ax:
         print(json.dumps({"inputs": k, "axiom_disagreements": len(ax), "samples": ax[:3]}, default=str))
         sys.exit(3)
-    bad = search(k)
+    bad = search(k) or check_get_path()
     print(json.dumps({"inputs": k, "native_contract_failures": 1 if bad else 0, "samples": [bad] if bad else [], "known_findings": sorted(KNOWN)}, default=str))
     sys.exit(1 if bad else 0)
 
